@@ -38,7 +38,10 @@ def module_ast(module):
     path = os.path.join(REPO, 'teneva', module + '.py')
     if path not in _SRC_CACHE:
         src = open(path).read()
-        _SRC_CACHE[path] = (src, ast.parse(src))
+        import warnings
+        with warnings.catch_warnings():
+            warnings.simplefilter('ignore')
+            _SRC_CACHE[path] = (src, ast.parse(src))
     return _SRC_CACHE[path]
 
 
@@ -907,6 +910,9 @@ class Exec:
 
     def assign(self, t, v, st, aug=False):
         if isinstance(t, ast.Name):
+            if t.id in self.type_hints and isinstance(v, VRef) and isinstance(st.heap.get(v.oid), VList) \
+                    and not st.heap[v.oid].items:
+                v = self.models.empty_seq(self, st, self.type_hints[t.id])
             st.vars[t.id] = v
             return
         if isinstance(t, (ast.Tuple, ast.List)):
